@@ -1,0 +1,25 @@
+//go:build !verif
+
+package gojq
+
+// Stubs for the verification hooks (see verif_export.go): without the build
+// tag every switch is off and the hooks compile away.
+const (
+	verifOptConstObject = 1 << iota
+	verifOptConstArray
+	verifOptUnaryConst
+	verifOptConstIndex
+	verifOptIdentityArg
+	verifOptOneInstrArg
+	verifOptIfConst
+	verifOptConstSetpath
+	verifOptTailRec
+	verifOptPeephole
+	verifOptJumpThread
+)
+
+func verifOptOff(uint32) bool { return false }
+
+func (c *compiler) compileIndexGeneral(*Term, *Index) error { panic("unreachable") }
+
+func (c *compiler) compileUnaryGeneral(*Unary) error { panic("unreachable") }
